@@ -86,6 +86,10 @@ type c25aRetain struct {
 	stop   bool
 	first  map[string]int64
 	client *codec.WKProto
+	// the connection's read buffer: every Decode input is placed here and the buffer is
+	// overwritten as soon as Decode returned (the adapter declares OwnsDecodedFrames: "decoded
+	// frames and payload bytes stay valid and immutable after Decode returns")
+	readBuf []byte
 }
 
 func c25aRetSession(k c25aKeys, mode string) (session.Session, *wkprotoenc.SessionCrypto, error) {
@@ -112,7 +116,7 @@ func c25aRetSession(k c25aKeys, mode string) (session.Session, *wkprotoenc.Sessi
 }
 
 func c25aRetainNew(r *ev.R) *c25aRetain {
-	h := &c25aRetain{r: r, ad: adapterpkg.New(), sess: map[[2]string]session.Session{}, in: map[[2]int]*c25aRetIn{}, refs: map[c25aCall][]byte{}, first: map[string]int64{}, client: codec.New()}
+	h := &c25aRetain{r: r, ad: adapterpkg.New(), sess: map[[2]string]session.Session{}, in: map[[2]int]*c25aRetIn{}, refs: map[c25aCall][]byte{}, first: map[string]int64{}, client: codec.New(), readBuf: make([]byte, 4096)}
 	for ki := 0; ki < 2; ki++ {
 		k := c25aKeySets[ki]
 		for _, mode := range []string{"crypto", "keys", "nokeys", "v5"} {
@@ -206,15 +210,15 @@ func (h *c25aRetain) run(c c25aCall) (res c25aRes) {
 		case "encode-sendack":
 			res.wire, err = h.ad.Encode(sess, &frame.SendackPacket{MessageID: int64(9000 + c.Len), MessageSeq: uint64(c.Len), ClientSeq: uint64(c.Key), ClientMsgNo: fmt.Sprintf("ack-%d", c.Len), ReasonCode: frame.ReasonSuccess}, session.OutboundMeta{})
 		case "decode-send":
-			res.frames, res.n, err = h.ad.Decode(sess, in.sendWire)
+			res.frames, res.n, err = h.ad.Decode(sess, h.read(in.sendWire))
 		case "decode-send-tampered":
-			res.frames, res.n, err = h.ad.Decode(sess, in.badWire)
+			res.frames, res.n, err = h.ad.Decode(sess, h.read(in.badWire))
 		case "encode-recv-nokeys":
 			res.wire, err = h.ad.Encode(h.sess[[2]string{fmt.Sprint(c.Key), "nokeys"}], in.recv, session.OutboundMeta{})
 		case "encode-recv-seq-overflow-v5":
 			res.wire, err = h.ad.Encode(h.sess[[2]string{fmt.Sprint(c.Key), "v5"}], in.recvBig, session.OutboundMeta{})
 		case "decode-send-garbage":
-			res.frames, res.n, err = h.ad.Decode(sess, in.garbage)
+			res.frames, res.n, err = h.ad.Decode(sess, h.read(in.garbage))
 		default:
 			panic("harness: unknown call kind " + c.Kind)
 		}
@@ -226,7 +230,19 @@ func (h *c25aRetain) run(c c25aCall) (res c25aRes) {
 		res.class = "err"
 	}
 	res.snap = append([]byte(nil), res.wire...)
+	if h.ad.OwnsDecodedFrames() {
+		for i := range h.readBuf {
+			h.readBuf[i] = 0xEE // the connection reads the next bytes into the same buffer
+		}
+	}
 	return res
+}
+
+// read places wire bytes into the shared read buffer.
+func (h *c25aRetain) read(wire []byte) []byte {
+	b := h.readBuf[:len(wire):len(wire)]
+	copy(b, wire)
+	return b
 }
 
 func (h *c25aRetain) atReturn(c c25aCall, res c25aRes, hist string) *c25aViol {
